@@ -187,6 +187,7 @@ Lemma step_op_frame : forall u c d cs o a,
 Proof.
   intros u c d cs o a Hk Hcs. unfold step_op. destruct (is_db_op o) eqn:Hdb.
   - pose proof (db_step_frame u c d cs o Hk Hcs) as [A B].
+    destruct (forced_dep o a) as [fr|] eqn:Ef; [cbn [fst snd]; split; [reflexivity|exact Hcs]|].
     destruct a as [|r|]; try (split; assumption).
     destruct r as [| |k| | | | | | |]; try (split; assumption).
     unfold fault. destruct k.
